@@ -185,7 +185,17 @@ def rec_name_level(case, i):
     if case.get('levels') and i in case['levels']['cuts']:
         return SYNC, 50
     k = (i * 7 + case['lvl_seed']) % 12
-    return NAMES[k % 3], (LEVELS_LOW if case.get('low') else LEVELS)[(k // 3 + i) % 4]
+    name = NAMES[k % 3]
+    if name == 'cfg.c' and mid_names(case):
+        # the records of this third go to 'cfg': an INTERMEDIATE node of the parent's logger hierarchy (the parent only
+        # ever asked for 'cfg.a', 'cfg.b', ...; in its logging module 'cfg' is a place holder, not a Logger, unless a
+        # level change of the case creates it)
+        name = 'cfg'
+    return name, (LEVELS_LOW if case.get('low') else LEVELS)[(k // 3 + i) % 4]
+
+
+def mid_names(case):
+    return case['lvl_seed'] % 3 == 0
 
 
 def passes(case, i):
@@ -346,7 +356,7 @@ _TAG = ['child']
 
 def _emit(case, lo, hi):
     import logging
-    loggers = {nm: logging.getLogger(nm) for nm in NAMES + [SYNC]}
+    loggers = {nm: logging.getLogger(nm) for nm in NAMES + [SYNC, 'cfg']}
     for i in range(lo, hi):
         name, lvl = rec_name_level(case, i)
         if case.get('unconf'):
@@ -447,7 +457,7 @@ def _inner(case):
 
     class Rec(logging.Handler):
         def emit(self, record):
-            if record.name not in NAMES and record.name != SYNC:
+            if record.name not in NAMES and record.name not in (SYNC, 'cfg'):
                 return      # mpservice's own records (servlet start-up etc.)
             if case.get('slow'):
                 time.sleep(case['slow'])
